@@ -100,6 +100,26 @@ impl Check for C02 {
         }
     }
 
+    fn generate_stream(&self, stream: &str, rng: &mut Rng, idx: usize, tier: Tier) -> Scn {
+        if stream != "corpus" {
+            return self.generate(rng, idx, tier);
+        }
+        // author-written programs (tests/interpreter snippets, examples/ with their module graphs),
+        // every entry in turn, under the same schedule space
+        let c = crate::corpus::corpus();
+        let total = c.snippets.len() + c.examples.len();
+        let k = idx % total.max(1);
+        let (e, fuel) = if k < c.snippets.len() { (&c.snippets[k], 400_000) } else { (&c.examples[k - c.snippets.len()], 1_500_000) };
+        let mut case = e.to_case();
+        if case.module_path.is_none() && !e.src.contains("import ") && rng.chance(0.25) {
+            case.module_path = Some("/p/main.ts".into());
+        }
+        let n = 4 + rng.below(4);
+        let schedules = (0..n).map(|_| random_gc(rng)).collect();
+        let driver = if rng.chance(0.7) { Driver::Step } else { Driver::Eval };
+        Scn { case, driver, schedules, tape: Tape::random(rng, 8), fuel }
+    }
+
     fn shrink(&self, scn: &Scn) -> Vec<Scn> {
         let mut out = Vec::new();
         if scn.schedules.len() > 1 {
